@@ -24,6 +24,7 @@ structure Handler where
   msgType : String
   store : Store
   role : String
+  callee : String          -- the authorisation function the guard calls ("adminKeeper.IsAdminAccount", …; "" = none)
   signerField : String
   getSignersField : String
   pre : List StmtKind
